@@ -11,7 +11,8 @@
 From Coq Require Import String.
 From Verif Require Import Lib.Base Lib.Dec Lib.PyStr Changelog.Model Changelog.Spec Changelog.EditSpec
   Changelog.ParseProofs Changelog.NormalProofs Changelog.BuiltProofs
-  Changelog.EditReplay Changelog.EditParsed.
+  Changelog.EditReplay Changelog.EditParsed
+  Changelog.Lit Changelog.Check Changelog.WfCheckProofs Changelog.NormalCheckProofs.
 
 (** 1. lenient_total.  For every input (a str, any list of lines, a file), every
        allow_empty_author, every max_blocks, the lenient constructor returns.  Rests on
@@ -203,6 +204,83 @@ Example C15_edit_parsed_nonvacuous :
      end.
 Proof. vm_compute. repeat split. Qed.
 
+(** 7. agree implies holds (the bridge between the correspondence and the theorems above).
+       For EVERY case of Changelog/Check.v ([CMut] and [CEdit] are C15's constructors; the module
+       is shared with C04): whenever the implementation behaved like the model, the property
+       held -- under the side condition [judged] (Changelog/NormalCheckProofs.v), which says
+       - [CMut]: a list-of-lines or file input consists of lines of a text (no CR, no inner LF,
+         after rstrip('\n')); max_blocks is not 0; and where the normal form is judged, blocks of
+         the object and of its re-parse that have the same raw version show the same public
+         version ([ob_pubversion], which [agree] does not compare);
+       - [CEdit]: the same for the start input and the public versions, and only when all
+         editing values are in their domains and no call raised (otherwise [holds] claims nothing);
+       - [CWf]: see Props/C04.v.
+       Without it the statement is false ([C15_agree_alone_is_not_enough]).  The list-of-lines
+       and max_blocks conditions are the ones the check declares in its ASSUMPTIONS. *)
+Theorem C15_agree_implies_holds :
+  forall c, judged c = true -> agree c = true -> holds c = true.
+Proof. exact agree_implies_holds. Qed.
+
+(** the strictness part of [holds] needs no side condition at all: for every input form
+    (lines with CR included), allow_empty_author and max_blocks, [agree] alone gives: the
+    lenient constructor returned; the strict one raised ChangelogParseError, and nothing
+    else, exactly when the lenient one warned; otherwise it built the same object *)
+Theorem C15_agree_implies_strictness :
+  forall inp allow maxb tbl len str re,
+  agree (CMut inp allow maxb tbl len str re) = true ->
+  exists os, len = Ok os /\
+    match str with
+    | Err ParseError => negb (os_warnings os =? 0)%N
+    | Err _ => false
+    | Ok os' =>
+        (os_warnings os =? 0)%N && (os_warnings os' =? 0)%N
+        && list_eqb block_eqb (map block_of (os_blocks os)) (map block_of (os_blocks os'))
+        && strs_eqb (map declit (os_initial os)) (map declit (os_initial os'))
+    end = true.
+Proof. exact agree_implies_strictness. Qed.
+
+(** judged cases that agree and hold (a file with max_blocks = 1 and allow_empty_author; an
+    editing script on a parsed changelog), and the three ways in which [agree] alone is not
+    enough: a re-parse observed without its public version; a change line with a CR given in
+    a list of lines (written with the CR, read back as two lines); max_blocks = 0 after a
+    blank line (str() is a blank text, whose parse formats to "") *)
+Definition C15_L (s : string) : lit := enclit (dec s).
+Definition C15_hdr : string := "p (1) u; urgency=low".
+Definition C15_trl : string := " -- a <b>  1 J 2001 1:00:00 +0000".
+Definition C15_block (v : string) (ch : list lit) (pv : option lit) : oblock :=
+  mkOB (Some (C15_L "p")) (Some (C15_L v)) (Some (C15_L "u")) (Some (C15_L "low")) (C15_L "") ch
+       (Some (C15_L "a <b>")) (Some (C15_L "1 J 2001 1:00:00 +0000")) [] [] false (C15_L "  ") pv.
+Definition C15_text : lit :=
+  C15_L "p (1) u; urgency=low\00000a  * x\00000a -- a <b>  1 J 2001 1:00:00 +0000\00000a".
+Definition C15_obs (pv : option lit) : result ostate :=
+  Ok (mkOS [] [C15_block "1" [C15_L "  * x"] pv] 0 (Ok C15_text)).
+
+Example C15_agree_holds_nonvacuous :
+  let one := Some (C15_L "1") in
+  let mut := CMut (LFile C15_text) true (Some 1%N) [] (C15_obs one) (C15_obs one) (Some (C15_obs one)) in
+  let o := Ok (mkOS [] [C15_block "2" [C15_L "  * x"; C15_L "  * y"] (Some (C15_L "2"))] 0
+     (Ok (C15_L "p (2) u; urgency=low\00000a  * x\00000a  * y\00000a -- a <b>  1 J 2001 1:00:00 +0000\00000a"))) in
+  let edit := CEdit (Some (LStr C15_text)) [] [LAddChange (C15_L "  * y"); LSetAttr AVersion (C15_L "2")] o (Some o) in
+  (judged mut = true /\ agree mut = true /\ holds mut = true)
+  /\ (judged edit = true /\ agree edit = true /\ holds edit = true).
+Proof. vm_compute. repeat split. Qed.
+
+Example C15_agree_alone_is_not_enough :
+  let one := Some (C15_L "1") in
+  let pub := CMut (LStr C15_text) false None [] (C15_obs one) (C15_obs one) (Some (C15_obs None)) in
+  let t_cr := C15_L "p (1) u; urgency=low\00000a  * a\00000db\00000a -- a <b>  1 J 2001 1:00:00 +0000\00000a" in
+  let t_lf := C15_L "p (1) u; urgency=low\00000a  * a\00000ab\00000a -- a <b>  1 J 2001 1:00:00 +0000\00000a" in
+  let o_cr := Ok (mkOS [] [C15_block "1" [C15_L "  * a\00000db"] one] 0 (Ok t_cr)) in
+  let o_lf := Ok (mkOS [] [C15_block "1" [C15_L "  * a"; C15_L "b"] one] 1 (Ok t_lf)) in
+  let cr := CMut (LLines [C15_L C15_hdr; C15_L "  * a\00000db"; C15_L C15_trl]) false None [] o_cr o_cr (Some o_lf) in
+  let o_m0 := Ok (mkOS [C15_L ""] [] 0 (Ok (C15_L "\00000a"))) in
+  let m0 := CMut (LLines [C15_L ""; C15_L C15_hdr]) false (Some 0%N) [] o_m0 o_m0
+                 (Some (Ok (mkOS [] [] 1 (Ok (C15_L ""))))) in
+  (agree pub = true /\ holds pub = false /\ judged pub = false)
+  /\ (agree cr = true /\ holds cr = false /\ judged cr = false)
+  /\ (agree m0 = true /\ holds m0 = false /\ judged m0 = false).
+Proof. vm_compute. repeat split. Qed.
+
 Print Assumptions C15_lenient_total.
 Print Assumptions C15_strict_iff_warning.
 Print Assumptions C15_strict_raises_iff_lenient_warns.
@@ -210,3 +288,9 @@ Print Assumptions C15_format_normal_form_parsed.
 Print Assumptions C15_format_normal_form_built.
 Print Assumptions C15_format_normal_form.
 Print Assumptions C15_block_norm_attributes.
+(** The case type carries its texts as packed primitive 63-bit integers (Changelog/Lit.v), so the two
+    statements below mention [declit]: Print Assumptions lists Coq's primitive integer type and the
+    four operations [declit] uses (PrimInt63.int, lsr, land, leb, eqb) -- kernel primitives that come
+    with the case type itself -- and nothing else. *)
+Print Assumptions C15_agree_implies_holds.
+Print Assumptions C15_agree_implies_strictness.
